@@ -176,6 +176,18 @@ static void corpus_misc(void)
         sodium_bin2base64(txt, sizeof txt, M, i, sodium_base64_VARIANT_URLSAFE_NO_PADDING); rec("bin2base64", (long) i, 0, 0, txt, strlen(txt)); r = sodium_base642bin(O, 100, txt, strlen(txt), NULL, &bl, NULL, sodium_base64_VARIANT_URLSAFE_NO_PADDING); rec("base642bin", (long) i, (long) bl, r, O, bl);
         memcpy(O, M, i); r = sodium_pad(&bl, O, i, 16, 200); rec("pad", (long) i, (long) bl, r, O, r == 0 ? bl : 0); if (r == 0) { size_t ul; r = sodium_unpad(&ul, O, bl, 16); rec("unpad", (long) i, (long) ul, r, NULL, 0); }
     }
+    /* carry / borrow chains through whole words (the amd64 assembly paths of add/sub at 64 bytes against the portable loops): operands over
+     * the word alphabet {00.., ff.., 01 00.., ff.. 7f, message bytes with word w all ones} */
+    { static const size_t UL[] = { 7, 8, 9, 16, 17, 24, 32, 33, 63, 64, 65, 70 }; size_t li, pa, pb; unsigned char A[72], B[72];
+      for (li = 0; li < sizeof UL / sizeof UL[0]; li++) { l = UL[li];
+        for (pa = 0; pa < 4 + (l + 7) / 8; pa++) for (pb = 0; pb < 4 + (l + 7) / 8; pb++) { size_t q; unsigned char *X;
+            for (q = 0; q < 2; q++) { size_t pat = q ? pb : pa; X = q ? B : A;
+                if (pat == 0) memset(X, 0, l); else if (pat == 1) memset(X, 0xff, l); else if (pat == 2) { memset(X, 0, l); X[0] = 1; } else if (pat == 3) { memset(X, 0xff, l); X[l - 1] = 0x7f; }
+                else { size_t w = pat - 4, n = l - 8 * w < 8 ? l - 8 * w : 8; memcpy(X, M + 3 * pat, l); memset(X + 8 * w, 0xff, n); } }
+            rec("compare-w", (long) (l * 100 + pa), (long) pb, sodium_compare(A, B, l), NULL, 0); rec("memcmp-w", (long) (l * 100 + pa), (long) pb, sodium_memcmp(A, B, l), NULL, 0);
+            memcpy(O, A, l); sodium_add(O, B, l); rec("add-w", (long) (l * 100 + pa), (long) pb, 0, O, l);
+            memcpy(O, A, l); sodium_sub(O, B, l); rec("sub-w", (long) (l * 100 + pa), (long) pb, 0, O, l);
+            if (pb == 0) { memcpy(O, A, l); sodium_increment(O, l); rec("increment-w", (long) (l * 100 + pa), 0, sodium_is_zero(O, l), O, l); } } } }
     rec("verify16", 0, 0, crypto_verify_16(M, M), NULL, 0); rec("verify16", 1, 0, crypto_verify_16(M, M + 1), NULL, 0); rec("verify32", 0, 0, crypto_verify_32(M, M), NULL, 0); rec("verify32", 1, 0, crypto_verify_32(M, M + 1), NULL, 0);
     rec("verify64", 0, 0, crypto_verify_64(M, M), NULL, 0); rec("verify64", 1, 0, crypto_verify_64(M, M + 64), NULL, 0);
     randombytes_buf_deterministic(O, 1000, K); rec("randombytes_buf_deterministic", 1000, 0, 0, O, 1000);
